@@ -1711,7 +1711,7 @@ def proof_stage(ck):
     return ok, failing
 
 
-EXPECT_THEOREMS = 63
+EXPECT_THEOREMS = 65
 
 
 def run(ck):
